@@ -212,7 +212,7 @@ def extract_returns(tree):
             if any(isinstance(x, ast.Name) and x.id in ("super", "locals", "vars") for x in ast.walk(v)):
                 continue
             used = sorted({x.id for x in ast.walk(v) if isinstance(x, ast.Name) and isinstance(x.ctx, ast.Load) and x.id in local})
-            nm = _fresh("_xh_", counter)
+            nm = _fresh("_xh_" if counter[0] % 2 == 0 else "extracted_helper_", counter)     # private and public names alternate
             new_defs.append(ast.FunctionDef(name=nm, args=ast.arguments(posonlyargs=[], args=[ast.arg(arg=u) for u in used], vararg=None, kwonlyargs=[],
                                                                       kw_defaults=[], kwarg=None, defaults=[]),
                                             body=[ast.Return(value=v)], decorator_list=[], returns=None, type_comment=None, type_params=[]))
